@@ -436,8 +436,71 @@ def r03f(ctx, P):
 THOROUGH_FEATURES = ['r03e', 'r03f']
 
 
+def r03g(ctx, P):
+    rid = "R03.g"
+    ctx.rule(rid, "UNDO DOES NOT TRUST A CACHED LENGTH: after a failed log write nothing is known about the file's length (the bytes may "
+                  "be there although the call returned an error). Wal::truncate_to / Wal::truncate, which every error path uses to cut "
+                  "the log back, therefore reach StorageFile::set_len on every path to a success return — no early `nothing to do` "
+                  "return decided from state the handle keeps about its own length")
+    from sa.prog import site_must_perform
+    n = 0
+    for q in (N.WAL_TRUNCATE_TO, N.WAL_TRUNCATE):
+        f = P.inlined(q, depth=1) if P.fn(q) is not None else None
+        if not ctx.anchor(rid, f, q.rsplit("::", 2)[-2] + "::" + q.rsplit("::", 1)[-1]):
+            continue
+        ctx.saw(f)
+        n += 1
+        cuts = [Site(f, b) for b, t in f.calls() if callee_of(t) == N.F_SET_LEN or
+                (callee_of(t) in (N.WAL_TRUNCATE_TO,) and callee_of(t) != q)]
+        oks = ok_sites(f)
+        # a tail `self.file.sync_all()` returns the callee's Result: treat every return as a success return then
+        rets = oks or [Site(f, rb) for rb in f.reachable() if f.blocks[rb]["term"]["k"] == "return"]
+        rets = [Site(f, rb) for rb in f.reachable() if f.blocks[rb]["term"]["k"] == "return"]
+        from sa.prog import err_sites
+        errs = {e.b for e in err_sites(f)}
+        bad = []
+        for r in rets:
+            # every path to the return passes a cut, unless it is an error return
+            seen_, st_ = set(), [0]
+            cut_blocks = {c.b for c in cuts}
+            reach_wo = set()
+            while st_:
+                x = st_.pop()
+                if x in seen_ or x in cut_blocks:
+                    continue
+                seen_.add(x)
+                st_.extend(f.succ(x))
+            if r.b in seen_:
+                # reachable without a cut: only acceptable through an error origin (`?` on an earlier failing call)
+                from sa.rules.C15 import error_origins
+                eo = {e.b for e in error_origins(f)}
+                via_q = any(any("QuestionMark" in m for m in (f.blocks[x]["term"].get("macros") or [])) for x in seen_)
+                # recompute without `?` failure arms
+                seen2, st2 = set(), [0]
+                while st2:
+                    x = st2.pop()
+                    if x in seen2 or x in cut_blocks:
+                        continue
+                    seen2.add(x)
+                    tx = f.blocks[x]["term"]
+                    if tx["k"] == "switch" and any("QuestionMark" in m for m in (tx.get("macros") or [])):
+                        vals = dict(zip(tx["values"], tx["targets"]))
+                        st2.append(vals.get(0))
+                        continue
+                    st2.extend(y for y in f.succ(x) if y is not None)
+                if r.b in seen2 and not (eo & seen2):
+                    bad.append(r)
+        ctx.ob(rid, "%s:%s:always-cuts" % (rid, q.rsplit("::", 1)[-1]), bool(cuts) and not bad,
+               "%s reaches set_len on every path to a success return" % q.rsplit("::", 1)[-1] if cuts and not bad else
+               "%s can return without calling set_len: an error path that asks for the log to be cut back to its previous length is "
+               "answered `nothing to do` from cached state, and the records of the failed operation stay in the log" % q.rsplit("::", 1)[-1],
+               "%s:%s" % (f.file, f.line))
+    ctx.floor(rid, n, 2, "log-cutting entry points (truncate_to, truncate)")
+
+
 def run(ctx, progs):
     P = progs.get("default")
+    r03g(ctx, P)
     commit = r03ab(ctx, P)
     if commit is not None:
         r03c(ctx, P, commit)
